@@ -32,7 +32,7 @@ import time
 import random
 import contextlib
 from symx.harness import Harness, run_harness, load_known
-from symx.core import sym_and, sym_or, sym_not, SymInt
+from symx.core import sym_and, sym_or, sym_not, implies, ite, SymInt
 from symx.seq import SymStr
 from ref import regexsem
 
@@ -237,102 +237,211 @@ def code_points(s):
     return [ord(c) for c in s]
 
 
+def iff(a, b):
+    return sym_or(sym_and(a, b), sym_and(sym_not(a), sym_not(b)))
+
+
+# -- what a transition row MEANS (specification of the table format used by scanner/codegen):
+#    entries (first, last, next): the next state for char is the `next` of the entry with first <= char <= last
+def row_lookup(row, ch):
+    """target of the entry of `row` containing ch (-1: none); one if-then-else term, no fork"""
+    r = -1
+    for first, last, nxt in reversed(row):
+        r = ite(sym_and(ch >= first, ch <= last), nxt, r)
+    return r
+
+
+def row_hits(row, ch):
+    """number of entries of `row` containing ch"""
+    n = 0
+    for first, last, _ in row:
+        n = n + ite(sym_and(ch >= first, ch <= last), 1, 0)
+    return n
+
+
+def delta(transitions, state, ch):
+    """table semantics for a possibly symbolic state"""
+    if type(state) is not SymInt:
+        return row_lookup(transitions[state], ch) if 0 <= state < len(transitions) else -1
+    r = -1
+    for q in range(len(transitions) - 1, -1, -1):
+        if state.lo <= q <= state.hi:
+            r = ite(state == q, row_lookup(transitions[q], ch), r)
+    return r
+
+
+def make_summary(real):
+    """pick_transition summarised per next state: forks once per distinct TARGET of the row instead of
+    once per bisect comparison.  Equality with the real function is what TransitionHarness proves for
+    every (state, char) of the very same table."""
+    real = getattr(real, "real", real)
+
+    def pick_transition(state_transitions, state, char):
+        if type(char) is not SymInt:
+            return real(state_transitions, state, char)
+        groups = {}
+        for first, last, nxt in state_transitions[state]:
+            groups.setdefault(nxt, []).append(sym_and(char >= first, char <= last))
+        for nxt, conds in groups.items():
+            if sym_or(*conds):
+                return nxt
+        raise RuntimeError("We should not get here!")
+
+    pick_transition.real = real
+    return pick_transition
+
+
 class _RegexHarness(Harness):
+    """common part: the subject is one expression (compile(text)) or a token vector (make_scanner)"""
     shim_modules = ("ppci.lang.tools.regex.scanner",)
     W = 24
     max_paths = 60000
     max_decisions = 400
+    choose_limit = 4096
+
+    def setup(self, asts):
+        self.asts = asts
+        self.texts = [regexsem.render(a) for a in asts]
+        self.subject = " $ ".join(repr(t) for t in self.texts)
+        self._prog = None
 
     def shim_extra(self):
         return {"bisect": py_bisect}
 
-    def inputs(self, mk):
-        return dict(s=mk.str("s", self.n, 0, 255))
-
-
-class FullMatchHarness(_RegexHarness):
-    """DFA acceptance of every prefix of a symbolic string vs. the expression's language"""
-
-    def __init__(self, ast, n):
-        self.ast = ast
-        self.n = n
-        self.text = regexsem.render(ast)
-        self.name = f"regex.fullmatch[{self.text!r}][len<={n}]"
-        self.params = dict(ast=ast, n=n)
-        self._prog = None
-
-    def prog(self):
+    def compiled(self):
+        """(scanner object or None, (transitions, accepts, error)); built once by the REAL parser +
+        derivative construction + compile(); a failure is re-raised on every path"""
         if self._prog is None:
-            from ppci.lang.tools.regex import compiler
-            self._prog = compiler.compile(self.text)     # real parser + derivatives + DFA construction
+            from ppci.lang.tools import regex
+            try:
+                if len(self.texts) == 1:
+                    self._prog = (None, regex.compile(self.texts[0]))
+                else:
+                    with contextlib.redirect_stdout(io.StringIO()):      # make_scanner prints the expressions
+                        sc = regex.make_scanner({f"t{k}": t for k, t in enumerate(self.texts)})
+                    self._prog = (sc, sc._prog)
+            except Exception as e:  # noqa
+                self._prog = e
+        if isinstance(self._prog, Exception):
+            raise self._prog
         return self._prog
+
+    def n_states(self):
+        try:
+            return len(self.compiled()[1][0])
+        except Exception:  # noqa
+            return 1
+
+
+class TransitionHarness(_RegexHarness):
+    """real scanner.pick_transition on every state of the compiled table and a symbolic character"""
+
+    def __init__(self, asts):
+        self.setup(asts)
+        self.name = f"regex.pick_transition[{self.subject}]"
+        self.params = dict(asts=asts)
+
+    def inputs(self, mk):
+        return dict(q=mk.int("q", 0, self.n_states() - 1), c=mk.int("c", 0, 255))
 
     def run(self, i):
         from ppci.lang.tools.regex import scanner
-        transitions, accepts, error = self.prog()
-        cps = code_points(i["s"])
-        state = 0
-        flags = [bool(accepts[state])]
-        dead = state == error
-        for ch in cps:
-            if dead:
-                break
-            state = scanner.pick_transition(transitions, state, ch)
-            if state == error:
-                dead = True
-            else:
-                flags.append(bool(accepts[state]))
-        return flags, dead
+        transitions, accepts, error = self.compiled()[1]
+        q = int(i["q"])                       # forks over the states
+        return [q, scanner.pick_transition(transitions, q, i["c"])]
 
     def post(self, i, out):
         if not out.ok:
-            # an expression of the supported syntax must compile, and the tables must cover the alphabet
+            # an expression of the supported syntax must compile, and its table must cover the alphabet
+            return {"compiles-and-table-covers-alphabet": False}
+        q, nxt = out.value
+        transitions, accepts, error = self.compiled()[1]
+        row = transitions[q]
+        return {"returns-target-of-the-entry-containing-char": nxt == row_lookup(row, i["c"]),
+                "exactly-one-entry-contains-char": row_hits(row, i["c"]) == 1,
+                "target-is-a-state": sym_and(nxt >= 0, nxt < len(transitions))}
+
+
+class FullMatchHarness(_RegexHarness):
+    """DFA acceptance of every prefix of a symbolic string vs. the expression's language (no forks:
+    the state after j characters is an if-then-else term over the real table)"""
+
+    def __init__(self, ast, n):
+        self.setup([ast])
+        self.ast = ast
+        self.n = n
+        self.name = f"regex.fullmatch[{self.subject}][len<={n}]"
+        self.params = dict(ast=ast, n=n)
+
+    def inputs(self, mk):
+        return dict(s=mk.str("s", self.n, 0, 255))
+
+    def step(self, transitions, state, ch):
+        if type(state) is SymInt or type(ch) is SymInt:
+            return delta(transitions, state, ch)
+        if state < 0:
+            return -1
+        from ppci.lang.tools.regex import scanner
+        try:
+            return scanner.pick_transition(transitions, state, ch)     # concrete replay: the real walker
+        except RuntimeError:
+            return -1
+
+    def run(self, i):
+        transitions, accepts, error = self.compiled()[1]
+        cps = code_points(i["s"])
+        accepting = [q for q in range(len(transitions)) if accepts[q]]
+        state = 0
+        acc, dead = [], []
+        for j in range(self.n + 1):
+            acc.append(sym_or(*[state == q for q in accepting]))
+            dead.append(state == error)
+            if j < self.n:
+                state = self.step(transitions, state, cps[j])
+        return dict(acc=acc, dead=dead)
+
+    def post(self, i, out):
+        if not out.ok:
             return {"compiles-and-runs": False}
-        flags, dead = out.value
+        acc, dead = out.value["acc"], out.value["dead"]
         cps = code_points(i["s"])
         ends = regexsem.Matcher(cps).ends(self.ast, 0)
+        lang = [ends.get(j, False) for j in range(self.n + 1)]
         posts = {}
-        for j, f in enumerate(flags):
-            lang = ends.get(j, False)
-            posts[f"accept<=>in-language[len={j}]"] = lang if f else sym_not(lang)
-        if dead:
-            rest = [ends.get(j, False) for j in range(len(flags), self.n + 1)]
-            posts[f"error-state=>no-extension-matches[from len={len(flags)}]"] = sym_not(sym_or(*rest)) if rest else True
+        for j in range(self.n + 1):
+            posts[f"accept<=>in-language[len={j}]"] = iff(acc[j], lang[j])
+        for j in range(self.n + 1):
+            posts[f"error-state=>no-extension-matches[len={j}]"] = implies(dead[j], sym_not(sym_or(*lang[j:])))
         return posts
 
 
 class ScanHarness(_RegexHarness):
-    """maximal-munch tokenisation of a symbolic string.
+    """maximal-munch tokenisation of a symbolic string by the REAL scan loop.
     one expression: scanner.scan(compile(text), s); several: make_scanner({name: text}).scan(s)"""
 
     def __init__(self, asts, n):
-        self.asts = asts
+        self.setup(asts)
         self.n = n
-        self.texts = [regexsem.render(a) for a in asts]
-        self.name = f"regex.scan[{' $ '.join(repr(t) for t in self.texts)}][len={n}]"
+        self.name = f"regex.scan[{self.subject}][len={n}]"
         self.params = dict(asts=asts, n=n)
-        self._prog = None
 
-    def prog(self):
-        if self._prog is None:
-            from ppci.lang.tools import regex
-            if len(self.texts) == 1:
-                self._prog = regex.compile(self.texts[0])
-            else:
-                with contextlib.redirect_stdout(io.StringIO()):      # make_scanner prints the expressions
-                    self._prog = regex.make_scanner({f"t{k}": t for k, t in enumerate(self.texts)})
-        return self._prog
+    def shim_extra(self):
+        from ppci.lang.tools.regex import scanner
+        return {"bisect": py_bisect, "pick_transition": make_summary(scanner.pick_transition)}
+
+    def inputs(self, mk):
+        return dict(s=mk.str("s", self.n, 0, 255))
 
     def run(self, i):
         from ppci.lang.tools.regex import scanner
-        prog = self.prog()
+        sc, prog = self.compiled()
         s = i["s"]
-        gen = scanner.scan(prog, s) if len(self.texts) == 1 else prog.scan(s)
+        gen = scanner.scan(prog, s) if sc is None else sc.scan(s)
         toks = []
         status = "ok"
         try:
             for t in gen:
-                name, txt = ("t0", t) if len(self.texts) == 1 else t
+                name, txt = ("t0", t) if sc is None else t
                 toks.append([int(name[1:]), code_points(txt)])
                 if len(toks) > self.n:
                     status = "no-progress"
@@ -446,10 +555,13 @@ def chunk_fullmatch(tier, seed, lo, hi, n):
     errs = _selftest(asts, name)
     known = _known()
     parts = []
+    bad = 0
     for a in asts:
-        r = run_harness(FullMatchHarness(a, n), known, want_trace=not parts)
-        parts.append(r)
-        if r["violations"] and len([p for p in parts if p["violations"]]) >= 3:
+        rs = [run_harness(TransitionHarness([a]), known, want_trace=not parts),
+              run_harness(FullMatchHarness(a, n), known, want_trace=not parts)]
+        parts += rs
+        bad += any(r["violations"] for r in rs)
+        if bad >= 3:
             break                                   # enough counterexamples from this chunk
     return _merge(name, parts, t0, errs)
 
@@ -464,10 +576,15 @@ def chunk_scan(tier, seed, lo, hi, n, vectors):
     errs = _selftest([a for v in items for a in v], name)
     known = _known()
     parts = []
+    bad = 0
     for v in items:
-        r = run_harness(ScanHarness(v, n - 1 if len(v) >= 4 else n), known, want_trace=not parts)
-        parts.append(r)
-        if r["violations"] and len([p for p in parts if p["violations"]]) >= 3:
+        rs = []
+        if vectors:     # (tables of single expressions are covered by the full-match chunk of the same expression)
+            rs.append(run_harness(TransitionHarness(v), known, want_trace=not parts))
+        rs.append(run_harness(ScanHarness(v, n - 1 if len(v) >= 4 else n), known, want_trace=not parts))
+        parts += rs
+        bad += any(r["violations"] for r in rs)
+        if bad >= 3:
             break
     return _merge(name, parts, t0, errs)
 
